@@ -281,12 +281,14 @@ func init() {
 		ID: "C11",
 		Harnesses: func(tier string) []HarnessSpec {
 			return []HarnessSpec{{Name: "request-response", Pkg: "actor", Func: "ZZ_C11", Preempt: tierSel(tier, 1, 2), Params: pm("R", 2),
-				Witnesses: []string{"replied", "timed-out", "late-reply"}, Deadline: 60 * time.Minute}}
+				Witnesses: []string{"replied", "timed-out", "late-reply", "reply-before-Result-entered", "follow-up-replied"}, Deadline: 60 * time.Minute},
+				{Name: "concurrent-requests", Pkg: "actor", Func: "ZZ_C11_Conc", Preempt: 2, Params: pm("R", tierSel(tier, 2, 3)),
+					Witnesses: []string{"concurrent-request-replied"}, TrustRace: true, Deadline: 60 * time.Minute}}
 		},
 		Bounds: func(tier string) string {
 			return fmt.Sprintf("2 concurrent requests to one responder; each is replied to 0, 1 or 2 times by a replier goroutine; the timeout timer of each Result may fire at any scheduling point (reply delay on either side of the timeout is a scheduling choice); response ids drawn from math/rand are symbolic (any value in range); preemption bound %d", tierSel(tier, 1, 2))
 		},
-		Outside:     []string{"more than 2 requests / 2 replies", "a second reply that arrives before Result returned (buffered and dropped, not covered by the statement)", "requests through Context.Request (same Engine.Request path)"},
+		Outside:     []string{"more than 2 requests / 2 replies in the history harness (requests issued one after the other, then a follow-up request); the concurrent harness issues its requests from goroutines (distinct registered response PIDs, race detector on the engine's bookkeeping, each reply reaches its requester)", "a second reply that arrives before Result returned (buffered and dropped, not covered by the statement)", "requests through Context.Request (same Engine.Request path)"},
 		Assumptions: thrAssume("bare engine, recording responder, Response/Registry real; context.WithTimeout modelled by a timer goroutine that cancels whenever scheduled"),
 	})
 
@@ -313,11 +315,11 @@ func init() {
 		ID: "C17",
 		Harnesses: func(tier string) []HarnessSpec {
 			return []HarnessSpec{{Name: "two-nodes-contract-transport", Pkg: "remote", Func: "ZZ_C17", Preempt: 0,
-				Params:    pm("K", tierSel(tier, 2, 3), "ZZMAXALLOC", 1100000, "ZZDETSCHED", 1),
-				Witnesses: []string{"delivered", "dead-lettered", "burst", "peer-down", "peer-up", "reply", "unreachable-and-connected-in-one-history"}, Deadline: 90 * time.Minute}}
+				Params:    pm("K", tierSel(tier, 2, 3), "TLS", 1, "ZZMAXALLOC", 1100000, "ZZDETSCHED", 1),
+				Witnesses: []string{"delivered", "dead-lettered", "burst", "peer-down", "peer-up", "reply", "unreachable-and-connected-in-one-history", "tls-configured"}, Deadline: 90 * time.Minute}}
 		},
 		Bounds: func(tier string) string {
-			return fmt.Sprintf("two nodes A and B; quiescent histories of %d operations (send A->B to one of 2 targets with or without sender; burst of two sends; B's reader consumes what has arrived; B comes up / becomes reachable; B becomes unreachable and its connections break; B sends to an actor on A), B initially up or not started; then Start twice, Stop().Wait(), Stop again, Stop before Start; one schedule per history (deterministic scheduler), payload = remote.TestMessage with one data byte", tierSel(tier, 2, 3))
+			return fmt.Sprintf("two nodes A and B; quiescent histories of %d operations (send A->B to one of 2 targets with or without sender; burst of two sends; B's reader consumes what has arrived; B comes up / becomes reachable; B becomes unreachable and its connections break; B sends to an actor on A), B initially up or not started, both nodes configured with or without a TLS config (TLS itself is not modelled; tls.Dial keeps its real shape: a concrete *Conn that is nil on failure); then Start twice, Stop().Wait(), Stop again, Stop before Start; one schedule per history (deterministic scheduler), payload = remote.TestMessage with one data byte", tierSel(tier, 2, 3))
 		},
 		Outside: []string{
 			"REDUCED SCOPE - real TCP, TLS, the DRPC library (framing, its goroutines, flow control) and the OS are replaced by a contract transport: a dial succeeds exactly when the peer serves and is reachable, frames on an established connection arrive once and in order, a broken connection loses what was not yet read. That TCP+DRPC honour this contract is assumed, not checked",
